@@ -9,6 +9,7 @@ import WrapModel.Model.Runtime.Mx
 import WrapModel.Model.Runtime.Gateway
 import WrapModel.Model.XmlDriver
 import WrapModel.Spec.Subst
+import WrapModel.Spec.Lexemes
 
 namespace WrapModel.Driver
 open WrapModel
@@ -94,6 +95,23 @@ def handle (fields : List String) : String :=
         match Spec.specInstModule m with
         | .ok im => okLine (IDump.cppModule im)
         | .error e => errLine e
+  | ["lexrt", h] =>
+    -- the canonical lexemes of the parsed tree (C01: `Spec.lexemes`), and whether reading them back gives the tree
+    match Hex.decode h with
+    | none => "bad\thex"
+    | some text =>
+      match Parse.parseModule text with
+      | .error e => errLine e
+      | .ok m =>
+        let ls := Spec.lexemes m
+        let back := match Tok.runL (Parse.pmodule (4 * ls.length + 16)) ls with
+          | .ok m' [] => if m' == m then "1" else "0"
+          | _ => "0"
+        let toks := ls.map fun l => match l with
+          | .word w => "w" ++ w
+          | .sym t => "s" ++ t
+          | .atom _ tx _ _ => "a" ++ tx
+        okLine (back ++ "\x1e" ++ "\x1f".intercalate toks)
   | "pybind" :: rest =>
     match decodeAll rest with
     | some args => handlePybind args
